@@ -353,10 +353,11 @@ def tool_variants(b, img):
 
 def fail_of(kind, rc, out=""):
     """did the tool report that it could not do its work?  e2fsck: bit 8 of the exit status (operational error); debugfs
-    exits 0 whatever happens, there the library's error message (every MMP code's text starts with "MMP: ") counts"""
+    exits 0 whatever happens, there the library's error message counts (the MMP codes' texts start with "MMP: ", except
+    EXT2_ET_MMP_CSUM_INVALID "MMP block checksum does not match")"""
     if kind in ("fsck", "fsckn"):
         return bool(rc & 8) or rc >= 128
-    return rc != 0 or "MMP: " in out
+    return rc != 0 or "MMP: " in out or "MMP block checksum does not match" in out
 
 
 def build_so(work):
